@@ -13,6 +13,8 @@ Inductive op :=
 | OPop                            (* p.pop()  = read p[-1]; del p[-1] *)
 | OExtend (fs : list dnf)         (* p.extend(es) / p += es : append one by one *)
 | ODelMany (idx : list nat)       (* del p[slice] : np.delete with the positions of the slice *)
+| OSetMany (idx : list nat) (fs : list dnf)  (* p[slice / index list / mask] = es, as many expressions as positions: the store and all
+                                     new rows are padded to the common maximum, then the rows are assigned *)
 | OReverse.                       (* p.reverse(): pairwise swap through __getitem__/__setitem__ *)
 
 (* swap loop of MutableSequence.reverse on the array: RHS is read first (two read-backs), then two assignments *)
@@ -36,6 +38,7 @@ Definition apply_op (p : prov) (o : op) : prov :=
   | OPop => delitem p (plen p - 1)
   | OExtend fs => fold_left (fun q f => insert q (plen q) f) fs p
   | ODelMany idx => mkProv (pD p) (pC p) (del_many idx (prow p))
+  | OSetMany idx fs => fold_left (fun q (t : nat * dnf) => setitem q (fst t) (snd t)) (combine idx fs) p
   | OReverse => reverse_p p
   end.
 
@@ -55,6 +58,7 @@ Definition apply_list (l : list dnf) (o : op) : list dnf :=
   | OPop => removelast l
   | OExtend fs => l ++ fs
   | ODelMany idx => del_many idx l
+  | OSetMany idx fs => fold_left (fun m (t : nat * dnf) => set_nth (fst t) (snd t) m) (combine idx fs) l
   | OReverse => rev l
   end.
 
@@ -74,6 +78,7 @@ Definition legal (n : nat) (l : list dnf) (o : op) : Prop :=
   | OPop => l <> []
   | OExtend fs => forall f, In f fs -> wf_formula n f
   | ODelMany idx => True
+  | OSetMany idx fs => length idx = length fs /\ (forall i, In i idx -> i < length l) /\ (forall f, In f fs -> wf_formula n f)
   | OReverse => True
   end.
 Fixpoint legal_run (n : nat) (l : list dnf) (ops : list op) : Prop :=
@@ -86,7 +91,7 @@ Definition view (p : prov) : list dnf := map decode_row (prow p).
 From Coq Require Import ZArith.
 Inductive rop :=
 | RSet (i : Z) (f : dnf) | RInsert (i : Z) (f : dnf) | RAppend (f : dnf) | RDel (i : Z) | RPop
-| RPopAt (i : Z) | RExtend (fs : list dnf) | RDelMany (idx : list nat) | RReverse.
+| RPopAt (i : Z) | RExtend (fs : list dnf) | RDelMany (idx : list nat) | RSetMany (idx : list nat) (fs : list dnf) | RReverse.
 
 (* numpy / list convention for item access: a negative index counts from the end *)
 Definition norm_index (n : nat) (i : Z) : nat := Z.to_nat (if (i <? 0)%Z then (Z.of_nat n + i)%Z else i).
@@ -109,5 +114,6 @@ Definition resolve (n : nat) (r : rop) : op :=
   | RPopAt i => ODel (norm_index n i)
   | RExtend fs => OExtend fs
   | RDelMany idx => ODelMany idx
+  | RSetMany idx fs => OSetMany idx fs
   | RReverse => OReverse
   end.
